@@ -383,7 +383,7 @@ def history_obligations(report, guards, tier, patterns=None):
                     skipped.append((pname, k, f"[{k},{f},{k}]: {e!r}"[:120]))
                     continue
                 n_hist += 1
-                name = f"{pname}:{k}|after={k}>{f}"
+                name = f"{pname}:{k}|after={k}>{f}>@default-cache"
                 o, mismatch = compare(name, got, canon[k], pre, group=f"consumer must not corrupt cached {k}")
                 if mismatch:
                     report.record(name, 'sat', group=f"consumer must not corrupt cached {k}", kind='structure')
@@ -418,7 +418,11 @@ def concrete_replay(pattern, key, cached, history, model):
     with np.errstate(all='ignore'):
         want = mk()[key]
         if history:
-            rel = mk(clear_cache_every_nbr_calc=1, memory_threshold_inGB=1e-9)
+            if history[-1] == '@default-cache':
+                rel = mk()
+                history = history[:-1]
+            else:
+                rel = mk(clear_cache_every_nbr_calc=1, memory_threshold_inGB=1e-9)
             for h in history:
                 rel[h]
             got = rel[key]
